@@ -229,7 +229,7 @@ def run(ctx):
     # (c) single scenario, no expectation information == ro model
     for k in range(ctx.n(20, 300)):
         r, seed = G.sub_rng(ctx.rng)
-        d = D.gen(r, S=1); d['seed'] = seed; d['exps'] = []; d['econ'] = None; d['y_events'] = []
+        d = D.gen(r, S=1); d['seed'] = seed; d['exps'] = []; d['econ'] = None; d['y_events'] = []; d['pwcon'] = None; d['w'] = None
         ctx.search_cases += 1; ctx.evaluations += 1
         try:
             with C.quiet():
